@@ -220,7 +220,7 @@ def scale_spec(draw, booleans_only=False, allow_const=False):
     implementations switch strategy (16, 32, 64, 100, 128)."""
     shape = draw(st.sampled_from(["wide", "wide", "deep", "bushy", "many", "longids"]))
     L = lambda i, b=(0, 1): {"k": "leaf", "id": i, "b": list(b)}
-    around = lambda: draw(st.sampled_from([17, 20, 31, 32, 33, 40, 63, 64, 65, 100, 101, 128, 129, 140]))
+    around = lambda: draw(st.sampled_from([17, 20, 31, 32, 33, 40, 63, 64, 65, 65, 66, 100, 101, 128, 129, 130, 140, 200, 256, 257, 300]))
     if shape == "wide":
         n = around()
         kids = [L("o%03d" % i) for i in range(n)]
@@ -330,9 +330,18 @@ def scale_case(draw, n_points=(10, 16), **kw):
     ids = sorted(lv)
     n = draw(st.integers(*n_points))
     pts = []
+    nl = len(ids)
     for r in range(n):
-        mode = r if r < 2 else draw(st.integers(2, 5))
+        mode = r if r < 2 else draw(st.integers(2, 7))
         seed_bits = draw(st.integers(0, 2 ** 62))
+        if mode >= 6:
+            # very few leaves at their upper end: the last / the first / first two and last / last two / one drawn position
+            # (in id order) - all other leaves at their lower end (mode 6) or, for mode 7, the complement of that pattern
+            pat = draw(st.sampled_from([[nl - 1], [0], [0, 1, nl - 1], [nl - 2, nl - 1], [0, nl - 1], [draw(st.integers(0, nl - 1))],
+                                        [0, 1, 2], [nl - 3, nl - 2, nl - 1], [nl // 2, nl - 1]]))
+            pat = {p_ for p_ in pat if 0 <= p_ < nl}
+            pts.append([(lv[i][1] if (j in pat) == (mode == 6) else lv[i][0]) for j, i in enumerate(ids)])
+            continue
         row = []
         for j, i in enumerate(ids):
             lo, hi = lv[i]
